@@ -174,19 +174,29 @@ const c18PipeRule = " | worker stage (TestC18Pipe): generated sFlow pipelines (g
 	"sFlowWorker of the package-main driver; oracle = the published payloads equal, one by one, the library decode of each datagram under the same filter (so nothing between the option and the decoder drops or keeps more than the filter says)"
 
 func TestC18Pipe(t *testing.T) {
-	col := getCollector("C18", "")
-	col.Rule += c18PipeRule
-	col.sampler = summarisePipelineOrSelf
-	defer drivers.stopAll()
-	envs := map[string]*wire.GenEnv{"ipfix": wire.NewGenEnv("ipfix"), "nf9": wire.NewGenEnv("nf9")}
-	envs["ipfix"].NoEnterprise = true
-	gen := rapid.Custom(func(t *rapid.T) plCase {
-		c := genPipeline(t, "sflow", envs, 200)
+	workerStage(t, "C18", c18PipeRule, func(t *rapid.T) string { return "sflow" }, func(t *rapid.T, c *plCase) {
 		for len(c.Filter) == 0 {
 			c.Filter = genFilter(t)
 			if len(c.Filter) == 0 {
 				c.Filter = []uint32{rapid.SampledFrom([]uint32{1, 2, 9}).Draw(t, "onefilter")}
 			}
+		}
+	})
+}
+
+// workerStage runs generated pipelines (generator and differential oracle of C12) under another property's name:
+// the stage that makes a library-level check sensitive to what the worker around the library does.
+func workerStage(t *testing.T, prop, rule string, proto func(*rapid.T) string, adjust func(*rapid.T, *plCase)) {
+	col := getCollector(prop, "")
+	col.Rule += rule
+	col.sampler = summarisePipelineOrSelf
+	defer drivers.stopAll()
+	envs := map[string]*wire.GenEnv{"ipfix": wire.NewGenEnv("ipfix"), "nf9": wire.NewGenEnv("nf9")}
+	envs["ipfix"].NoEnterprise = true
+	gen := rapid.Custom(func(t *rapid.T) plCase {
+		c := genPipeline(t, proto(t), envs, 200)
+		if adjust != nil {
+			adjust(t, &c)
 		}
 		c.Race = false
 		return c
@@ -200,12 +210,28 @@ func TestC18Pipe(t *testing.T) {
 	seed := e2eSeed()
 	for i := 0; i < n; i++ {
 		c := gen.Example(seed*1000 + 300 + i)
-		v, sig, err := runPipeline("C18", &c)
+		v, sig, err := runPipeline(prop, &c)
 		v.NT = true
 		v.label(true, "worker-stage")
 		col.report(t, mustJSON(c), v, sig, err)
 		col.addExtra("worker_stage_cases", 1)
 	}
+}
+
+const c05PipeRule = " | worker stage (TestC05Pipe): generated pipelines of all four protocols (generator of C12, incl. verbose logging, worker churn, slow consumer, cross traffic) through the real workers of the package-main driver; " +
+	"every payload taken from the message queue must be a valid JSON document and equal the library encoding of its datagram's decode (which the main stage validates value by value)"
+
+func TestC05Pipe(t *testing.T) {
+	workerStage(t, "C05", c05PipeRule, func(t *rapid.T) string { return rapid.SampledFrom(robustProtos).Draw(t, "proto") }, func(t *rapid.T, c *plCase) {
+		c.Verbose = rapid.Bool().Draw(t, "verbose2")
+	})
+}
+
+const c09PipeRule = " | worker stage (TestC09Pipe): generated IPFIX / NetFlow v9 pipelines (generator of C12: truncated, unknown-template, reserved-id, partly decodable and corrupted datagrams between valid ones, receive buffers reused across sizes) " +
+	"through the real workers; what is published for a cut or partly undecodable datagram equals the library decode of exactly the octets received (nothing left in a recycled buffer is ever interpreted)"
+
+func TestC09Pipe(t *testing.T) {
+	workerStage(t, "C09", c09PipeRule, func(t *rapid.T) string { return rapid.SampledFrom([]string{"ipfix", "nf9"}).Draw(t, "proto") }, nil)
 }
 
 // summarisePipelineOrSelf: pipeline cases are summarised, library cases are kept as they are.
@@ -220,13 +246,16 @@ func summarisePipelineOrSelf(cj []byte) []byte {
 }
 
 func init() {
-	registerReplayExtra("C18", "phases", func(raw json.RawMessage) error {
-		defer drivers.stopAll()
-		var c plCase
-		if err := json.Unmarshal(raw, &c); err != nil {
+	for _, p := range []string{"C18", "C05", "C09"} {
+		prop := p
+		registerReplayExtra(prop, "phases", func(raw json.RawMessage) error {
+			defer drivers.stopAll()
+			var c plCase
+			if err := json.Unmarshal(raw, &c); err != nil {
+				return err
+			}
+			_, _, err := runPipeline(prop, &c)
 			return err
-		}
-		_, _, err := runPipeline("C18", &c)
-		return err
-	})
+		})
+	}
 }
